@@ -45,7 +45,7 @@ func (h *MaprHandler) Write(p []byte) (n int, err error) {
 		case protocol.MessageDelimiter:
 			message := h.baseHandler.receiveBuf.String()
 			dlog.Client.Debug(message)
-			if message[0] == 'A' {
+			if len(message) > 0 && message[0] == 'A' {
 				h.handleAggregateMessage(message)
 			} else {
 				if h.removedNl {
